@@ -1,8 +1,8 @@
 (** Extraction of the C04 ticker model (ExtrOcamlBasic only; N/Z/positive/nat stay inductive). *)
 Require Extraction.
 Require Import ExtrOcamlBasic.
-From Kardia Require Import C04.Model.
+From Kardia Require Import C04.Model C04.MedianModel.
 Extraction Language OCaml.
 Set Extraction KeepSingleton.
 From Kardia Require Import Base.Anchor.
-Extraction "../ocaml/C04/model.ml" Anchor.anchor Model.init Model.step.
+Extraction "../ocaml/C04/model.ml" Anchor.anchor Model.init Model.step MedianModel.median_time.
